@@ -107,6 +107,13 @@ def run_task(args):
     out = dict(ob=obname, prefix=prefix is not None, error=None)
     try:
         ob = _obs(pid, tier)[obname]
+        if deadline is not None and time.time() > deadline:
+            # queued behind the deadline: nothing explored, the obligation is simply not exhausted
+            from vf.symx.core import Stats
+            out.update(stats=Stats().as_dict(), violations=[], inconclusive=[], n_inconclusive=0, n_inconclusive_required=0, samples=[],
+                       frontiers=[], exhausted=False, assumptions=[], unsupported=[], unsupported_unwitnessed=0)
+            out["wall_s"] = 0.0
+            return out
         ex = symx.Explorer(qtimeout_ms=ob.qtimeout_ms or qtimeout_ms, hash_mode=ob.hash_mode,
                            step_budget=ob.step_budget, path_wall_s=ob.path_wall_s, div_mode=ob.div_mode)
         ex.budget_is_violation = ob.budget_is_violation
@@ -276,7 +283,10 @@ def run_check(pid, tier, seed, only, jobs, write_evidence=True):
                 # every task stops at the deadline (checked between paths) or at its path budget: what is still pending now was
                 # lost with its worker process (a crash inside a compiled library kills the process, the pool only replaces it)
                 for n_lost in sorted(set(o for o, _r in pending)):
-                    agg[n_lost]["errors"].append("task lost: its worker process died or hung (not a verdict)")
+                    if obs[n_lost].required:
+                        agg[n_lost]["errors"].append("task lost: its worker process died or hung (not a verdict)")
+                    else:
+                        agg[n_lost]["exhausted"] = False        # depth obligation: explored as far as the budget went
                 lost_workers.append(True)
                 return
             for item in pending:
